@@ -451,6 +451,12 @@ func (term *TermInvoke) Operands() []*value.Value {
 	}
 	ops = append(ops, &term.NormalRetTarget)
 	ops = append(ops, &term.ExceptionRetTarget)
+	// Operand bundle inputs are operands of the invoke as well.
+	for _, bundle := range term.OperandBundles {
+		for i := range bundle.Inputs {
+			ops = append(ops, &bundle.Inputs[i])
+		}
+	}
 	return ops
 }
 
@@ -620,6 +626,12 @@ func (term *TermCallBr) Operands() []*value.Value {
 	ops = append(ops, &term.NormalRetTarget)
 	for i := range term.OtherRetTargets {
 		ops = append(ops, &term.OtherRetTargets[i])
+	}
+	// Operand bundle inputs are operands of the callbr as well.
+	for _, bundle := range term.OperandBundles {
+		for i := range bundle.Inputs {
+			ops = append(ops, &bundle.Inputs[i])
+		}
 	}
 	return ops
 }
